@@ -78,10 +78,21 @@ func (e *executor) Exec(ctx context.Context, id string, param workFn) error {
 		defer workFnCancel()
 		workCtx = deadlineCtx
 	}
-	fnErr := (*fn)(workCtx, t.Param)
+	fnErr := callWorkFn(*fn, workCtx, t.Param)
 
 	param.workErr <- fnErr
 	return fnErr
+}
+
+// callWorkFn calls fn and converts a panic of fn into an error,
+// so that exactly one result is always reported and the worker survives.
+func callWorkFn(fn def.WorkFn, ctx context.Context, param map[string]string) (err error) {
+	defer func() {
+		if rcv := recover(); rcv != nil {
+			err = fmt.Errorf("work function panicked: %v", rcv)
+		}
+	}()
+	return fn(ctx, param)
 }
 
 type WorkerPool interface {
